@@ -10,6 +10,8 @@
 #include "vcommon.h"
 
 #include <dbus/dbus.h>
+#include <dbus/dbus-connection-internal.h>
+#include <dbus/dbus-string.h>
 #include <dbus/dbus-internals.h>
 #include <dbus/dbus-sysdeps.h>
 
@@ -266,6 +268,16 @@ static void state_all (OutBuf *o)
         describe_reply (i);
         ob_printf (o, " pc%d=%d/%d/%s", i, dbus_pending_call_get_completed (pcs[i].p), pcs[i].notified, pcs[i].result[0] ? pcs[i].result : "-");
       }
+  if (conn)
+    {
+      /* hook H2: internal state of the connection for the explorer's state key (one token) */
+      DBusString d; int k;
+      if (!_dbus_string_init (&d)) _exit (3);
+      if (!_dbus_verif_connection_dump (conn, &d)) _exit (3);
+      ob_puts (o, " cdump=");
+      for (k = 0; k < _dbus_string_get_length (&d); k++) { char c = _dbus_string_get_byte (&d, k); ob_putc (o, c == ' ' ? '~' : c); }
+      _dbus_string_free (&d);
+    }
 }
 
 static void finish (const char *status)
